@@ -68,6 +68,14 @@ PROPERTIES = {
         explanation="cover + once clauses over the relation specification; oracle shared with C13",
         assumptions=["index walk contract of TextSelectionIter (assumed)", "reference selections lie inside the text"],
     ),
+    'C08': dict(
+        units=['u_iter'],
+        level_text="Narrow claim: deductive proof (Verus/Z3), for any lawful inner iterator and any begin/end (positive, negative, zero, mixed), that LimitIter::next yields exactly the elements of the LIMIT slice of the unlimited results, in order: a ghost function future() of the iterator state is proved to equal slice_spec(all results, begin, end) for a fresh iterator, and every call returns its head and advances it (or returns None exactly when it is empty); no overflow, termination. Constraint-order independence, sub-queries, UNION, STAMQL = builder = iterator API and ADD/DELETE equivalence are 2600 lines of boxed iterator plumbing over the high-level API and are NOT claimed.",
+        level_note="Trusted: vstd's prophetic iterator laws for the inner iterator (obeys_prophetic_iter_laws, finite: decrease() is Some), isize::abs/unsigned_abs specs, 64-bit usize; the range end of one for-loop is hoisted into a local (R-hoist).",
+        design_ref='DESIGN.md §7.7',
+        explanation="LIMIT as a slice: state-to-future ghost function plus transition lemmas",
+        assumptions=["the number of inner results is below isize::MAX"],
+    ),
 }
 
 NOT_APPLICABLE = {
